@@ -272,3 +272,5 @@ func dur(d int64) time.Duration { return time.Duration(d) * time.Second }
 func bankSend(from, to sdk.AccAddress, amt sdk.Coins) sdk.Msg {
 	return banktypes.NewMsgSend(from, to, amt)
 }
+
+func sortStrings(xs []string) { sort.Strings(xs) }
